@@ -2,6 +2,7 @@ package main
 
 import (
 	"go/ast"
+	"go/token"
 	"go/types"
 )
 
@@ -9,7 +10,7 @@ func init() {
 	register(&propDef{
 		id: "C36", title: "A cluster singleton runs at most once cluster-wide",
 		technique: "who-may-call + guard dominance (local creation only on the 'this node is the elected host' edge), AST nesting under the per-name single flight, CFG ordering (cluster existence check ≺ construction)",
-		explanation: "Decides the local shape the cluster-wide property needs: (1) a singleton is created locally only in spawnSingletonOnLocal, which is called only from spawnSingletonOnLeader on the edge where the coordinator is the local node, from spawnSingletonWithRole on the edge where the oldest eligible member is the local node, (and through SpawnSingleton from the remote-spawn handler when another node delegated to this one); on every other edge the spawn is delegated to the elected node by RemoteSpawn with the singleton spec; (2) the creation runs inside runSpawnActivation keyed by the actor's name (C11) and, inside that closure, checkSpawnPreconditions (cluster-wide ActorExists) precedes the construction and its failure prevents it; a locally running instance of the name is returned instead of creating a second one; (3) the singleton option set marks the PID as singleton with its spec (so relocation re-arbitrates it through the same path). NOT decided: uniqueness under concurrent callers on different nodes, leader changes and registry propagation delays.",
+		explanation: "Decides the local shape the cluster-wide property needs: (1) a singleton is created locally only in spawnSingletonOnLocal, which is called only from spawnSingletonOnLeader on the edge where the coordinator is the local node, from spawnSingletonWithRole on the edge where the oldest eligible member is the local node, (and through SpawnSingleton from the remote-spawn handler when another node delegated to this one); on every other edge the spawn is delegated to the elected node by RemoteSpawn with the singleton spec; (2) the creation runs inside runSpawnActivation keyed by the actor's name (C11) and, inside that closure, checkSpawnPreconditions (cluster-wide ActorExists) precedes the construction and its failure prevents it; a locally running instance of the name is returned instead of creating a second one; (3) the singleton option set marks the PID as singleton with its spec (so relocation re-arbitrates it through the same path). NOT decided: uniqueness under concurrent callers on different nodes, leader changes and registry propagation delays. Added after seed C36b: in recreateSingletonFromWire, RemoveActor and SpawnSingleton are reachable only over the edge on which the registry lookup succeeded or reported the name absent; a lookup error never falls through.",
 		assumptions: []string{"cluster-wide uniqueness under concurrent spawns on different nodes and leadership changes", "ActorExists/PutActorIfAbsent semantics of the registry"},
 		minObl:     10,
 		run:        runC36,
@@ -99,6 +100,52 @@ func runC36(c *Ctx) {
 		}
 	})
 
+	c.Rule("stale-relocation", func() {
+		// A stale re-run of a departed node's relocation must not tear down a singleton that already lives on a survivor:
+		// the registry record is removed and the singleton respawned only when the registry lookup succeeded (and named
+		// the departed node) or reported the name absent. Any other lookup outcome (a transient read error) leaves the
+		// question open and must not fall through to RemoveActor + SpawnSingleton.
+		fn := c.Func("actor", "recreateSingletonFromWire")
+		f := c.NewFlow(fn)
+		info := f.Info
+		getActor := func(n ast.Node) bool { return isCallNamed(info, nodeExpr(n), "GetActor") }
+		lookupErr := map[types.Object]bool{}
+		ast.Inspect(fn.Decl.Body, func(n ast.Node) bool {
+			if as, ok := n.(*ast.AssignStmt); ok && len(as.Lhs) == 2 && len(as.Rhs) == 1 && isCallNamed(info, as.Rhs[0], "GetActor") {
+				if o := objOf(info, as.Lhs[1]); o != nil {
+					lookupErr[o] = true
+				}
+			}
+			return true
+		})
+		known := map[Edge]bool{}
+		for e := range f.FactEdges(func(cm cmp) bool { return cm.Op == token.EQL && isNilIdent(info, cm.R) && lookupErr[objOf(info, cm.L)] }) {
+			known[e] = true // lookup succeeded
+		}
+		for e := range f.BoolEdges(func(e ast.Expr) bool {
+			call, ok := ast.Unparen(e).(*ast.CallExpr)
+			if !ok || len(call.Args) != 2 {
+				return false
+			}
+			cal := callee(info, call)
+			if cal == nil || qualifiedName(cal) != "errors.Is" || !lookupErr[objOf(info, call.Args[0])] {
+				return false
+			}
+			o := objOf(info, call.Args[1])
+			return o != nil && o.Name() == "ErrActorNotFound"
+		}, true) {
+			known[e] = true // the name is absent
+		}
+		destructive := func(n ast.Node) bool {
+			return isCallNamed(info, nodeExpr(n), "RemoveActor") || isCallNamed(info, nodeExpr(n), "SpawnSingleton")
+		}
+		if len(lookupErr) == 0 || len(f.Find(getActor)) == 0 || len(f.Find(destructive)) == 0 {
+			c.Undecided("remove-only-when-entry-known", "the record is removed only after a conclusive registry lookup", c.P.Pos(fn.Decl.Pos()), "lookup or RemoveActor/SpawnSingleton not found")
+			return
+		}
+		c.guardedBy(f, known, destructive, "remove-only-when-entry-known", "the singleton's registry record is removed and the singleton respawned only after the lookup succeeded or reported the name absent (a lookup error never falls through)", c.P.Pos(fn.Decl.Pos()))
+	})
+
 	c.Rule("local-creation", func() {
 		info := local.Info()
 		// the whole creation is the closure of runSpawnActivation keyed by the name
@@ -160,4 +207,11 @@ func runC36(c *Ctx) {
 		c.Check(asks, "precondition-asks-cluster", "the precondition consults the cluster registry (ActorExists)", c.P.Pos(cp.Decl.Pos()), "")
 		_ = types.Universe
 	})
+}
+
+func nodeExpr(n ast.Node) ast.Expr {
+	if e, ok := n.(ast.Expr); ok {
+		return e
+	}
+	return nil
 }
